@@ -262,8 +262,11 @@ Definition StepLaw (s : pair) (o : pop) (s' : pair) (outs : list pout) : Prop :=
   (forall q m, In (TranSend q m) outs -> pr_p s' = Some q) /\
   (forall q, In (TranRecv q) outs -> pr_p s' = Some q).
 
+Ltac use_I1 := match goal with I1 : ?w = true -> _, W : ?w = true |- _ => destruct (I1 W) as (? & ? & ?); subst; cbn; auto end.
+Ltac use_I2 := match goal with I2 : ?r <> None -> _, R : ?r <> None |- _ => destruct (I2 R) as (? & ?); subst; cbn; auto end.
 Ltac leaf :=
-  try discriminate; try lia; try tauto; try congruence; try (constructor; auto; fail);
+  try discriminate; try (constructor; auto; fail); try (intros; discriminate); try congruence; try lia; try (intros; congruence);
+  try solve [use_I1]; try solve [use_I2];
   try (intros ?x; cbn [pacc txs freed pdelivered]; msimp; lia);
   try (cbn [pacc txs pdelivered app]; rewrite ?map_app, ?app_nil_r; cbn [map app]; reflexivity);
   try (intros _; cbn [pacc txs pdelivered app]; rewrite ?map_app, ?app_nil_r, <- ?app_assoc; cbn [map app]; reflexivity);
@@ -346,10 +349,10 @@ Proof.
   open_state s. destruct (has_aio a waq) eqn:EA; [|destruct (has_id a raq) eqn:ER]; inversion H; subst; clear H; simp_r;
     cbn [pacc pdelivered]; try (destruct (N.eqb_spec rv 0); [contradiction|]).
   - repeat split; auto; leaf.
-    all: try solve [intros W; destruct (I1 W) as (A & B & C); subst; auto].
+    all: try solve [use_I1].
     all: try solve [unfold remove_aio; now apply nodup_filter_keys].
   - repeat split; auto; leaf.
-    all: try solve [intros R; destruct (I2 R) as (A & B); subst; auto].
+    all: try solve [use_I2].
     all: try solve [intros R; apply I3; intros E; subst; apply R; reflexivity].
   - repeat split; auto; leaf.
 Qed.
@@ -361,7 +364,7 @@ Proof.
   open_state s. destruct p0 as [q|].
   - destruct (q =? p)%N; inversion H; subst; clear H; simp_r.
     + destruct rd as [h|]; cbn [pacc pdelivered freed app]; repeat split; auto; leaf.
-      all: try solve [apply sublist_app_l].
+      all: try solve [rewrite ?app_nil_r; apply sublist_app_l].
     + repeat split; auto; leaf.
   - inversion H; subst; clear H. repeat split; auto; leaf.
 Qed.
@@ -374,11 +377,12 @@ Proof.
   rewrite !pacc_app, !pdelivered_app, !txs_app, !freed_app, !pacc_fail, !pdelivered_fail, !txs_fail, !freed_fail,
     !pacc_map_Free, !pdelivered_map_Free, !txs_map_Free, !freed_map_Free by discriminate.
   cbn [app]. repeat split; auto; leaf.
-  all: try solve [intros W; destruct (I1 W) as (A & B & C); auto].
-  all: try solve [intros R; destruct (I2 R) as (A & B); auto].
+  all: try solve [use_I1].
+  all: try solve [use_I2].
   all: try solve [intros x; msimp; lia].
-  all: try solve [intros E; subst; reflexivity].
-  all: try solve [destruct rd; cbn [app]; [apply sl_skip_app|apply sublist_nil_l]].
+  all: try solve [cbn; lia].
+  all: try solve [intros E; subst; cbn [app]; now rewrite app_nil_r].
+  all: try solve [rewrite app_nil_r; apply sl_skip_app].
   all: try solve [intros q m Hin; exfalso; revert Hin; rewrite !in_app_iff; unfold fail_aios; rewrite !in_map_iff;
     intros [(? & E & _)|[(? & E & _)|[(? & E & _)|(? & E & _)]]]; inversion E].
   all: try solve [intros q Hin; exfalso; revert Hin; rewrite !in_app_iff; unfold fail_aios; rewrite !in_map_iff;
